@@ -52,7 +52,10 @@ RULE = ('Hypothesis: FileSpec (1-5 dims of length 1-5, 1-5 numeric variables '
         'masked may instead hold the declared fill value (Pseudo2NetCDF '
         'convention) and convolve_dim on masked data may follow either '
         'numpy.ma.convolve semantics (mask propagated / masked elements '
-        'excluded).  1/10 of the quick tier (1/8 thorough) runs '
+        'excluded).  A third of the string-form cases and a few '
+        'applyAlongDimensions cases run on the file saved as netCDF and '
+        'reopened with the netcdf class (variables are netCDF4.Variable, '
+        'masked cells hold the fill value on disk).  1/10 of the quick tier (1/8 thorough) runs '
         'ioapi_base.applyAlongDimensions on generated gridded IOAPI files '
         '(routes arrays/griddesc), 2/3 of them after sliceDimensions(TSTEP='
         'index list) so that the time axis is irregular; reducers or '
@@ -137,23 +140,31 @@ def cases(draw, tier='quick'):
             fs['gattrs'].pop('history')
         sub = draw(st.sampled_from(['conv', 'modred', 'method', 'conv',
                                    'modred']))
+        # a third of the string-form cases run on the file saved as netCDF
+        # and reopened (class netcdf: variables are netCDF4.Variable)
+        disk = A.disk_ok(fs) and draw(st.integers(0, 2)) == 0
         if sub != 'conv':
             if sub == 'method':
                 return dict(file=fs, form='plain', entry='reduce_dim',
+                            disk=disk,
                             funcs=[[d, ['red',
                                         draw(st.sampled_from(REDUCERS))]]])
             # reducer names that are NOT array methods: _getfunc resolves
             # them to numpy.ma.<name> for masked data, numpy.<name> otherwise
             names = list(MODRED_BOTH)
-            if not any(d in v['dims'] and v.get('mask') is not None
-                       for v in fs['vars']):
+            # (netCDF4 hands out every variable as a masked array, so the
+            # numpy-only nan* names do not resolve for reopened files)
+            if not disk and not any(
+                    d in v['dims'] and v.get('mask') is not None
+                    for v in fs['vars']):
                 names = names + list(MODRED_NP)
-            return dict(file=fs, form='plain', entry='reduce_dim',
+            return dict(file=fs, form='plain', entry='reduce_dim', disk=disk,
                         funcs=[[d, ['modred', draw(st.sampled_from(names))]]])
         fd = draw(funcs(dlen[d]).filter(lambda f: f[0] == 'conv'))
-        return dict(file=fs, form='plain', entry='convolve_dim',
+        return dict(file=fs, form='plain', entry='convolve_dim', disk=disk,
                     funcs=[[d, fd]])
-    return dict(file=fs, funcs=fl, form=form)
+    disk = form == 'plain' and pick in (3, 4) and A.disk_ok(fs)
+    return dict(file=fs, funcs=fl, form=form, disk=disk)
 
 
 @st.composite
@@ -334,7 +345,7 @@ def check_string_form(case):
     r = Result()
     fs = case['file']
     m = S.model_of(fs)
-    f = S.build_file(fs)
+    f = _input(case, r, m)
     d, fd = case['funcs'][0]
     entry = case['entry']
     r.label('entry:' + entry, 'f:' + (fd[0] if fd[0] not in ('red', 'modred')
@@ -538,7 +549,40 @@ def check_ioapi(case):
     return r
 
 
+_OPEN = []      # disk-backed inputs of the running case: (file, path)
+
+
+def _input(case, r, m):
+    """the library file of a case: built in memory, or (case['disk']) saved
+    as netCDF and reopened with the netcdf class.  The model of a reopened
+    file holds the declared fill value under masked cells, as the file does
+    (only functions that ignore masks can see it)."""
+    f = S.build_file(case['file'])
+    if not case.get('disk'):
+        r.label('input:memory')
+        return f
+    g, path = A.reopen(f)
+    _OPEN.append((g, path))
+    r.label('input:netcdf-reopened')
+    for mv in m.vars.values():
+        if mv.masked and mv.fill is not None:
+            mv.data = mv.data.copy()
+            d_ = np.ma.getdata(mv.data)
+            d_[np.ma.getmaskarray(mv.data)] = mv.fill
+            if np.ma.getmaskarray(mv.data).any():
+                r.label('netcdf-input-with-missing-cells')
+    return g
+
+
 def check_case(case):
+    try:
+        return _check_case(case)
+    finally:
+        while _OPEN:
+            A.close_disk(*_OPEN.pop())
+
+
+def _check_case(case):
     if case.get('entry', 'method') == 'ioapi':
         return check_ioapi(case)
     if case.get('entry', 'method') != 'method':
@@ -546,7 +590,7 @@ def check_case(case):
     r = Result()
     fs = case['file']
     m = S.model_of(fs)
-    f = S.build_file(fs)
+    f = _input(case, r, m)
     fl = [[d, list(fd)] for d, fd in case['funcs']]
     fmap = S.OD((d, fd) for d, fd in fl)
     form = case.get('form', 'plain')
@@ -645,7 +689,8 @@ def check_case(case):
             if msg:
                 r.fail('untouched-data', msg)
             msg = S.cmp_attrs(ov, mv.attrs, 'variable %s' % name,
-                              skip=('fill_value',))
+                              skip=('fill_value', '_FillValue',
+                                    'missing_value'))
             if msg:
                 r.fail('untouched-attrs', msg)
             continue
